@@ -270,6 +270,22 @@ def conversation(sx, tech, brs, lri, lrt, did, nad, shapes, faults,
             sx.check(False, "single-fault-not-recovered:initiator:" + why)
         if T['end'] != t_end_ok or len(T['recv']) != n:
             sx.check(False, "single-fault-not-recovered:target:" + why)
+    elif cls == 'multi':
+        # two faults in one step: the attention request that follows a lost
+        # frame is itself a request/response pair; when its response arrives
+        # corrupted the initiator repeats the attention request (the target
+        # is alive) and the exchange goes on
+        faulty = [f for f in air.frames if f.fault]
+        if len(faulty) == 2 and faulty[0].step == faulty[1].step and \
+                faulty[0].step is not None and ex_timeout >= EX_TIMEOUT and \
+                FAULT_NAMES[faulty[0].fault] == "lose" and \
+                faulty[1].sender == 'T' and faulty[1].kind == "ATN" and \
+                FAULT_NAMES[faulty[1].fault] == "corrupt":
+            sx.reach("lost-frame-then-corrupted-attention-response")
+            if I['end'] is not None:
+                sx.check(False, "corrupted-attention-response-not-recovered:initiator:" + why)
+            if T['end'] != t_end_ok or len(T['recv']) != n:
+                sx.check(False, "corrupted-attention-response-not-recovered:target:" + why)
     if I['end'] is None:
         sx.reach("completed:" + cls)
     else:
@@ -453,7 +469,7 @@ def partitions(tier):
     return parts
 
 
-MUST_REACH = ["script:clean", "script:single", "script:multi", "completed:clean",
+MUST_REACH = ["lost-frame-then-corrupted-attention-response", "script:clean", "script:single", "script:multi", "completed:clean",
               "completed:single", "completed:multi", "failed:multi",
               "chaining:initiator", "chaining:target", "pni-wrap",
               "framing:106A", "framing:212F", "framing:424F", "did", "nad",
